@@ -767,6 +767,37 @@ def oracle_diagnostics(ctx, name, a, b, cpath):
                 if bad <= 3:
                     rep.violation("diagnostic line malformed", case=engine.find_case(cpath, cid), impl=[l[:300]], stream=name, oracle=why)
     rep.count("oracle:diagnostic lines judged", n)
+    # the model's own rendering (Calc/Model/Render.lean, theorems of Props/C14Render.lean) against the text the code
+    # printed: the model's reader must read the diagnostic's own position back from it, and the text must begin with
+    # the model's frame `renderPos l c`
+    todo = []
+    for cid, lines in a.items():
+        for k, l in enumerate(lines):
+            p = l.split(" ")
+            if len(p) > 2 and p[1].startswith("O") and p[2] == "err":
+                todo.append((cid, k, p[4], p[5], unhx(p[-1][5:])))
+            elif len(p) > 2 and p[1] == "scanerr":
+                todo.append((cid, k, p[2], p[3], unhx(p[-1]) + "\n"))
+            elif len(p) > 2 and p[1] == "parseerr" and p[3] != "-":
+                todo.append((cid, k, p[3], p[4], unhx(p[-1]) + "\n"))
+    todo = [t for t in todo if t[2].isdigit() and t[3].isdigit() and len(t[4]) < 20000]
+    if todo:
+        dpath = cpath + ".diagline"
+        with open(dpath, "w", encoding="utf-8") as f:
+            for j, (cid, k, li, co, txt) in enumerate(todo):
+                f.write("diagline r%d %s %s %s\n" % (j, li, co, core.hx(txt.rstrip("\n"))))
+        core.run_model(dpath, dpath + ".obs")
+        obs = core.read_obs(dpath + ".obs")
+        badm = 0
+        for j, (cid, k, li, co, txt) in enumerate(todo):
+            o = obs.get("r%d" % j, ["missing"])
+            if not (o and o[0].startswith("DIAGLINE 1 ")):
+                badm += 1
+                if badm <= 3:
+                    rep.violation("diagnostic line is not the model's rendering of its position", case=engine.find_case(cpath, cid), impl=[txt[:300]], model=o[:1], stream=name,
+                                  oracle="the model's readPos applied to the printed line must give the diagnostic's own line %s and column %s, and the line must begin with the model's renderPos (Props/C14Render: C14_render_reads_back)" % (li, co))
+        rep.count("oracle:diagnostic lines read back by the model's reader", len(todo))
+        rep.oblige("%s: every rendered diagnostic line begins with the model's frame and reads back, by the model's reader, as the diagnostic's own position (%d lines)" % (name, len(todo)), badm == 0, "%d lines differ" % badm)
 
 
 def read_number(t):
